@@ -40,7 +40,7 @@ PROF_PAST = Profile(un_temp=F.UN_PAST, bin_temp=F.BIN_PAST, tun=F.TUN_PAST, tbin
 PROF_ON = Profile(un_temp=F.UN_PAST, bin_temp=F.BIN_PAST, tbin=('since', 'until'), max_depth=3, max_bound=3)
 
 
-def decimal_text(fr):
+def decimal_text(fr, max_digits=12):
     """Literal for a non-negative Fraction that is a finite decimal with few digits, else None."""
     fr = Fraction(fr)
     if fr.denominator == 1:
@@ -52,7 +52,7 @@ def decimal_text(fr):
             d //= p
     if d != 1:
         return None
-    for digits in range(1, 13):
+    for digits in range(1, max_digits + 1):
         scaled = fr * 10 ** digits
         if scaled.denominator == 1:
             s = str(scaled.numerator).rjust(digits + 1, '0')
@@ -253,8 +253,10 @@ def reject_cases(draw, tier):
     which = draw(st.integers(0, 50))
     off = draw(st.sampled_from([Fraction(1, 2), Fraction(1, 4), Fraction(3, 2), Fraction(1, 10)]))
     if draw(st.integers(0, 2)) == 0:
-        # an excess far below the period: a fraction of a nanosecond (the smallest unit of the language)
-        off = draw(st.sampled_from([Fraction(1, 2), Fraction(1, 10), Fraction(1, 2000), Fraction(1, 4)])) / (pv * U[pu])
+        # an excess far below the period: a fraction of a nanosecond (the smallest unit of the language), down to 1e-13 ns
+        # (literals with up to 24 decimals: 2.0000000000000001s)
+        off = draw(st.sampled_from([Fraction(1, 2), Fraction(1, 10), Fraction(1, 2000), Fraction(1, 4), Fraction(1, 10 ** 6), Fraction(1, 10 ** 7),
+                                    Fraction(1, 10 ** 9), Fraction(3, 10 ** 10), Fraction(1, 10 ** 13)])) / (pv * U[pu])
     n = draw(st.integers(1, 6))
     tr = draw(F.traces(vs, n=n))
     # which bound(s) of the chosen interval leave the grid: the upper one, the lower one, or both by the same amount
@@ -300,9 +302,10 @@ def check_reject(case):
             if shift in ('lower', 'both'):
                 da = da + off * pn
         ta, tb = None, None
-        for u in UNITS:
-            ta = ta or (decimal_text(da / U[u]) and (decimal_text(da / U[u]), u))
-            tb = tb or (decimal_text(db / U[u]) and (decimal_text(db / U[u]), u))
+        units = UNITS if case['which'] % 2 == 0 else UNITS[::-1]       # prefer the largest / the smallest unit in which the literal is finite
+        for u in units:
+            ta = ta or (decimal_text(da / U[u], 24) and (decimal_text(da / U[u], 24), u))
+            tb = tb or (decimal_text(db / U[u], 24) and (decimal_text(db / U[u], 24), u))
         if not ta or not tb:
             return None
         return '[%s%s,%s%s]' % (ta[0], ta[1], tb[0], tb[1])
